@@ -77,4 +77,13 @@ theorem dconsPinned_not_adjoint (c : K) (hc : star c ≠ c) :
   simp [Op.dconsPinned, Op.tr, Op.mat, Op.dnil, ip, sumTo, vconj, vappend, vzero, basis, conj_eq_star] at this
   exact hc this.symm
 
+/-! ### the pinned `DiagonalReplicated`: adjoint mapped with `in_axes=input_axis, out_axes=output_axis` -/
+
+/-- witness: `A = [[0,1],[0,0]]`, two replicates, input axis 0 (`Qi = 2`), output axis 1 (`Qo = 1`) -/
+theorem drepPinned_not_adjoint :
+    ¬ IsAdj (Op.drepPinned 2 2 1 (Op.mat 2 2 (fun i j => if i = 0 ∧ j = 1 then (1 : K) else 0))) := by
+  intro h
+  have := h (basis 1) (basis 0)
+  simp [Op.drepPinned, Op.mat, Op.slab, Op.repIx, Op.repR, Op.repJ, ip, sumTo, basis, conj_eq_star] at this
+
 end Scico.Adjoint
